@@ -114,6 +114,11 @@ Proof. exact body_fixpoint_emitted. Qed.
    (natural order of LocalId), local functions by (Reverse(size), id), types by their (params, results) order, every
    name-section vector by index, function ranges by id, the DWARF tables by start / address.  A changed key or a dropped
    sort changes the regenerated text and breaks this theorem. *)
+From WV Require Gen.ConfigEmit Proofs.Config.
+(* the order in which Module::emit_wasm calls the section emitters (regenerated on every run) *)
+Theorem c08_emit_wasm_source_pinned : WV.Gen.ConfigEmit.emit_wasm_skeleton = WV.Proofs.Config.expected_emit_wasm_skeleton.
+Proof. exact WV.Proofs.Config.emit_wasm_skeleton_pinned. Qed.
+
 Require Import Coq.Strings.String.
 From WV Require Import Gen.SortKeys.
 Theorem c08_source_sort_keys :
@@ -146,3 +151,4 @@ Print Assumptions c08_normal_forms_are_the_fixed_points.
 Print Assumptions c08_operator_fixed_under_identity_renaming.
 Print Assumptions c08_body_fixpoint.
 Print Assumptions c08_emitted_stream_is_parsed_stream.
+Print Assumptions c08_emit_wasm_source_pinned.
